@@ -45,8 +45,35 @@ def check(chk):
     chk.analysed(enc, dec)
 
     # ------------------------------------------------------------ encoder
-    ecfg = enc.cfg()
+    # the tagging of one value may live in the encoder itself or in a module-level helper it calls with the value
+    tagf = enc
+    mod_ = repo.mod(BS)
+    if not any(src(x).replace(" ", "") in ("isinstance(v,bool)", "isinstance(v,int)") for x in ast.walk(enc.node) if isinstance(x, ast.Call)):
+        for c_ in enc.calls():
+            if isinstance(c_.func, ast.Name) and c_.func.id in mod_.functions and len(c_.args) == 1 and src(c_.args[0]) == "v":
+                cand = mod_.functions[c_.func.id]
+                if cand.params()[:1] == ["v"]:
+                    tagf = cand
+                    chk.analysed(tagf)
+    _memo_rule(chk, repo, tagf)
+    ecfg = tagf.cfg()
+
+    class _V:       # a value definition: an assignment to `value`, or (in a helper) a returned expression
+        def __init__(self, node, value):
+            self.id, self.lineno = node.id, node.lineno
+
+            class _A:
+                pass
+            self.ast = _A()
+            self.ast.value = value
+            self.ast.lineno = node.lineno
+            self.node_ast = node.ast
     vdefs = [n for n in ecfg.nodes_where(lambda n: n.kind == "stmt" and isinstance(n.ast, ast.Assign) and src(n.ast.targets[0]) == "value")]
+    if tagf is not enc:
+        vdefs = vdefs + [_V(n, n.ast.value) for n in ecfg.nodes_where(lambda n: n.kind == "stmt" and isinstance(n.ast, ast.Return) and n.ast.value is not None
+                                                                        and src(n.ast.value) != "value")]
+    enc_ = enc
+    enc = tagf if tagf is not enc else enc
     base = [n for n in vdefs if isinstance(n.ast.value, ast.Call) and call_attr(n.ast.value) in QUO]
     ok = len(base) == 1 and _layers(base[0].ast.value)[0] == 1 and src(base[0].ast.value.args[0]) == "str(v)" and \
         (len(base[0].ast.value.args) > 1 and src(base[0].ast.value.args[1]) == "''")
@@ -76,6 +103,8 @@ def check(chk):
             g = ecfg.guards_at(n.id)
             chk.ob("TABLE-9", "bool is tested before int (bool is a subclass of int)", g.get("isinstance(v, bool)") is False, enc.where(n.ast),
                    detail="guards %s" % sorted(g.items()), construct=enc.ident, text="bool before int")
+    enc = enc_
+    ecfg = enc.cfg()
     kq = [c for c in enc.calls() if call_attr(c) in QUO and src(c.args[0]) == "k"]
     chk.ob("LAYER-1", "parameter names are percent-encoded once as well", len(kq) == 1 and src(kq[0].args[1]) == "''", enc.where(), construct=enc.ident,
            text="key quote")
@@ -201,9 +230,49 @@ def check(chk):
                f.where(), construct=f.ident, text="return order in " + cn)
         _frame_rules(chk, cn, f, fcfg)
     chk.expect(n_r == 2, "C19: socket readers lost")
+    # SYNC-19: commands take effect in the order they were sent: the receive loop finishes processing one command before it
+    # reads the next (no create_task / call_soon / ensure_future around the processing)
+    BT = "mpf/core/bcp/bcp_transport.py"
+    rl = repo.func(BT, "BcpTransportManager._receive_loop")
+    chk.analysed(rl)
+    rcfg = rl.cfg()
+    reads = [n for n in rcfg.nodes if n.kind == "stmt" and "read_message()" in n.text(200)]
+    procs = [(n, c) for n, c in rcfg.calls_named("process_bcp_message")]
+    if not procs:
+        chk.missing("SYNC-19", "the receive loop hands each command to process_bcp_message", rl)
+    for n, c in procs:
+        awaited = any(isinstance(x, ast.Await) and x.value is c for x in ast.walk(n.ast)) if n.ast is not None else False
+        deferred = any(isinstance(x, ast.Call) and call_attr(x) in ("create_task", "ensure_future", "call_soon", "call_later", "run_coroutine_threadsafe", "gather")
+                       and any(y is c for y in ast.walk(x)) for x in ast.walk(n.ast))
+        chk.ob("SYNC-19", "a command is processed to the end before the next one is read (awaited in the receive loop, not spawned)", awaited and not deferred,
+               rl.where(c), detail="spawning the processing lets a later command overtake one whose handler is waiting", construct=rl.ident,
+               text="command processing " + ("spawned" if deferred else ("not awaited" if not awaited else "awaited")))
+        heads = [h.id for h in rcfg.nodes if h.kind == "join" and isinstance(h.ast, ast.While)]
+        ok = bool(reads) and all(rcfg.path_avoiding(r.id, heads, [n.id] + [x.id for x in rcfg.nodes if x.kind == "stmt" and isinstance(x.ast, ast.Return)],
+                                                    ignore_exc=True) is None for r in reads)
+        chk.ob("SYNC-19", "every command that was read is processed in the same round", ok, rl.where(c), construct=rl.ident, text="read without processing")
     snd = repo.func(BS, "AsyncioBcpClientSocket.send")
     ok = any(call_attr(c) == "write" and "+ '\\n'" in src(c) for c in snd.calls())
     chk.ob("OWN-17", "each command is sent as exactly one line", ok, snd.where(), construct=snd.ident, text="one line per command")
+
+
+def _memo_rule(chk, repo, tagf):
+    """CACHE-1: nothing on the encoding path is memoised by argument value.  A cache keyed by `==` cannot tell True from 1
+    from 1.0 (nor 0.0 from -0.0): whichever is encoded first decides the wire form -- and the decoded type -- of the others."""
+    n = 0
+    for f in list(repo.mod(BS).functions.values()) + [m for c in repo.mod(BS).classes.values() for m in c.methods.values()]:
+        decs = [d for d in f.decorators()]
+        memo = [d for d in decs if d.split(".")[-1] in ("lru_cache", "cache", "cached", "memoize", "memoized")]
+        n += 1
+        if not memo:
+            continue
+        typed = any(k.arg == "typed" and const_value(k.value) is True for d in f.node.decorator_list if isinstance(d, ast.Call) for k in d.keywords)
+        type_dep = any(isinstance(x, ast.Call) and call_attr(x) in ("isinstance", "type") for x in ast.walk(f.node)) or \
+            any(isinstance(x, ast.Compare) and isinstance(x.ops[0], (ast.Is, ast.IsNot)) for x in ast.walk(f.node))
+        chk.ob("CACHE-1", "%s is not memoised by value although its result depends on the argument's type" % f.qualname, typed or not type_dep,
+               f.where(), detail="@%s: True, 1 and 1.0 (0.0 and -0.0) share one cache entry" % memo[0], construct=f.ident,
+               text="value-keyed cache on type-dependent %s" % f.name)
+    chk.ob("CACHE-1", "functions of the BCP codec examined for value-keyed caches", n >= 3, "%s:1" % BS, detail="%d" % n, nontrivial=False)
 
 
 def _frame_rules(chk, cn, f, cfg):
@@ -294,6 +363,10 @@ def battery():
         M("decoded command dropped", BS, "            else:  # no bytes in the message\n                message_obj = self._process_command(message)\n\n            if message_obj:\n                return message_obj\n\n    def send", "            else:  # no bytes in the message\n                message_obj = self._process_command(message)\n\n            if not message_obj:\n                return message_obj\n\n    def send", "FRAME-1"),
         M("EOF test inverted", BS, "            if not message:\n                raise BrokenPipeError()", "            if message:\n                raise BrokenPipeError()", "OWN-17", nth=0),
         M("twin: rstrip newline", BS, "message = message[0:-1]", "message = message[:-1]", None, nth=-1),
+        M("value encoding memoised by value", BS, "def encode_command_string(bcp_command, **kwargs) -> str:", "import functools\n\n\n@functools.lru_cache(maxsize=128)\ndef _tag_of(v):\n    return 'bool:' if isinstance(v, bool) else ''\n\n\ndef encode_command_string(bcp_command, **kwargs) -> str:", "CACHE-1"),
+        M("commands processed in spawned tasks", "mpf/core/bcp/bcp_transport.py", "            await self._machine.bcp.interface.process_bcp_message(cmd, kwargs, transport)", "            self._machine.clock.loop.create_task(self._machine.bcp.interface.process_bcp_message(cmd, kwargs, transport))", "SYNC-19"),
+        M("twin: value tagging moved into a helper", BS, "def encode_command_string(bcp_command, **kwargs) -> str:", "def _encode_value(v) -> str:\n    value = quote(str(v), '')\n    if isinstance(v, bool):\n        return 'bool:{}'.format(value)\n    if isinstance(v, int):\n        return 'int:{}'.format(value)\n    if isinstance(v, float):\n        return 'float:{}'.format(value)\n    if v is None:\n        return 'NoneType:'\n    return value\n\n\ndef encode_command_string(bcp_command, **kwargs) -> str:", None,
+          also=[(BS, "        value = quote(str(v), '')\n\n        if isinstance(v, bool):  # bool isinstance of int, so this goes first\n            value = 'bool:{}'.format(value)\n        elif isinstance(v, int):\n            value = 'int:{}'.format(value)\n        elif isinstance(v, float):\n            value = 'float:{}'.format(value)\n        elif v is None:\n            value = 'NoneType:'\n        else:  # cast anything else as a string\n            value = str(value)\n\n        kwarg_string += '{}={}&'.format(quote(k, ''),\n                                        value)", "        kwarg_string += '{}={}&'.format(quote(k, ''),\n                                        _encode_value(v))")]),
     ]
 
 
